@@ -146,7 +146,7 @@ func (c *Conn) handle(cmd string, arg string) {
 	case "STARTTLS":
 		c.handleStartTLS()
 	default:
-		msg := fmt.Sprintf("Syntax errors, %v command unrecognized", cmd)
+		msg := fmt.Sprintf("Syntax errors, %v command unrecognized", replyText(cmd))
 		c.protocolError(500, EnhancedCode{5, 5, 2}, msg)
 	}
 }
@@ -256,7 +256,7 @@ func (c *Conn) handleGreet(enhanced bool, arg string) {
 	}
 
 	if !enhanced {
-		c.writeResponse(250, EnhancedCode{2, 0, 0}, fmt.Sprintf("Hello %s", domain))
+		c.writeResponse(250, EnhancedCode{2, 0, 0}, fmt.Sprintf("Hello %s", replyText(domain)))
 		return
 	}
 
@@ -305,7 +305,7 @@ func (c *Conn) handleGreet(enhanced bool, arg string) {
 		caps = append(caps, "RRVS")
 	}
 
-	args := []string{"Hello " + domain}
+	args := []string{"Hello " + replyText(domain)}
 	args = append(args, caps...)
 	c.writeResponse(250, NoEnhancedCode, args...)
 }
@@ -440,7 +440,7 @@ func (c *Conn) handleMail(arg string) {
 		return
 	}
 
-	c.writeResponse(250, EnhancedCode{2, 0, 0}, fmt.Sprintf("Roger, accepting mail from <%v>", from))
+	c.writeResponse(250, EnhancedCode{2, 0, 0}, fmt.Sprintf("Roger, accepting mail from <%v>", replyText(from)))
 	c.fromReceived = true
 }
 
@@ -756,7 +756,7 @@ func (c *Conn) handleRcpt(arg string) {
 		return
 	}
 	c.recipients = append(c.recipients, recipient)
-	c.writeResponse(250, EnhancedCode{2, 0, 0}, fmt.Sprintf("I'll make sure <%v> gets this", recipient))
+	c.writeResponse(250, EnhancedCode{2, 0, 0}, fmt.Sprintf("I'll make sure <%v> gets this", replyText(recipient)))
 }
 
 func checkNotifySet(values []DSNNotify) error {
@@ -1089,7 +1089,7 @@ func (c *Conn) handleBdat(arg string) {
 			c.bdatStatus.fillRemaining(err)
 			for i, rcpt := range c.recipients {
 				code, enchCode, msg := dataErrorToStatus(<-c.bdatStatus.status[i])
-				c.writeResponse(code, enchCode, "<"+rcpt+"> "+msg)
+				c.writeResponse(code, enchCode, "<"+replyText(rcpt)+"> "+msg)
 			}
 		} else {
 			c.writeResponse(dataErrorToStatus(err))
@@ -1239,7 +1239,7 @@ func (c *Conn) handleDataLMTP() {
 
 	for i, rcpt := range c.recipients {
 		code, enchCode, msg := dataErrorToStatus(<-status.status[i])
-		c.writeResponse(code, enchCode, "<"+rcpt+"> "+msg)
+		c.writeResponse(code, enchCode, "<"+replyText(rcpt)+"> "+msg)
 	}
 
 	// If done gets false, the panic occured in LMTPData and the connection
@@ -1272,6 +1272,24 @@ func (c *Conn) greet() {
 		protocol = "LMTP"
 	}
 	c.writeResponse(220, NoEnhancedCode, fmt.Sprintf("%v %s Service Ready", c.server.Domain, protocol))
+}
+
+// replyText returns s with the octets that must not appear in the text of a
+// reply (control characters other than HT, and DEL) replaced, so that text
+// taken from the peer can be quoted in a reply.
+func replyText(s string) string {
+	for i := 0; i < len(s); i++ {
+		if c := s[i]; (c < ' ' && c != '\t') || c == 0x7f {
+			b := []byte(s)
+			for ; i < len(b); i++ {
+				if c := b[i]; (c < ' ' && c != '\t') || c == 0x7f {
+					b[i] = '?'
+				}
+			}
+			return string(b)
+		}
+	}
+	return s
 }
 
 func (c *Conn) writeResponse(code int, enhCode EnhancedCode, text ...string) {
